@@ -58,7 +58,7 @@ CLAIMED = {
             "directories on the destination chain that are empty without it disappear. Tie: sizes around the page and 70000 bytes, chunk limits, and every way the source changes before the copy, with real EACCES.",
             NOTE + "Source not modified during the copy (single-threaded model).", "loop invariant over the sendfile loop for all oracles of the benign class; world correspondence + monitors"),
     "C08": ("Theorems: each pass stores exactly the bytes from the remembered position on and returns the new position (any chunking); over any append-only growth the slices concatenate to the file "
-            "(no byte missing or duplicated); the position round-trips through its decimal file and a torn write only rewinds; world level (benign oracles): one pass over a due history head creates exactly one version = the source from the remembered position on and leaves the file's length as the new position; over a chain of passes the k-th version is the k-th slice and they concatenate to the last content. Tie: append histories with restarts (also a history path inside a project), the position file round-trips every value up to 2^64-1, every single fault in copy and position update.",
+            "(no byte missing or duplicated); the position round-trips through its decimal file and a torn write only rewinds; world level (benign oracles): one pass over a due history head creates exactly one version = the source from the remembered position on and leaves the file's length as the new position; over a chain of passes the k-th version is the k-th slice and they concatenate to the last content; crash and recovery of a history entry, every honest oracle: the crashed pass ends in one of four exactly characterised states, the position read back is never ahead of the bytes stored, and restart + a fault-free pass empty the queue with the complete slice always among the new versions (what is stored twice is stated per case: at-least-once, never a lost byte). Tie: append histories with restarts (also a history path inside a project), the position file round-trips every value up to 2^64-1, every single fault in copy and position update.",
             NOTE + "Known finding K1: a fault inside the position update duplicates the slice after the restart (at-least-once).", "induction over append histories + decimal codec lemmas; world correspondence + history monitor"),
     "C10": ("Theorems: catch only at depth 0 and errors never dropped by finally/try; every call confined under any number of faults. World level, for EVERY oracle, one iteration of the pass over a file head: "
             "a failed call of the copy in the reported class ends the iteration with the error on the trace and the stop result; then no unlinkat was issued and every existing file and link (the head's queue link included) "
@@ -111,7 +111,7 @@ CLAIMED = {
     "C16": ("The configuration table is TRANSLATED from lua/config.lua.md on every run (tools/gen_config.py, closed grammar, refuses anything else) and the theorems are re-checked against it: documented "
             "defaults, well-scopedness, derived defaults follow prefix and debounce, assigned values verbatim, ill-typed value => load fails (generic in the table). Reload, for EVERY oracle: a returning run of reload / "
             "of the write handler on the configuration file either ends with an ok trace and a handler carrying exactly the new configuration (new queue if the path differs else the old queue with the new debounce, newly "
-            "opened journal) or with an error and the handler unchanged; a write event never loses a pending entry; K3 (old queue stranded) machine-checked with a refutation witness. Tie: the real load_config with liblua 5.3 "
+            "opened journal) or with an error and the handler unchanged; a write event never loses a pending entry; K3 (old queue stranded) machine-checked with a refutation witness; over whole histories of write / exec / pass / environment steps (every oracle): after an error-free history the configuration is the last one put in force and the queue's debounce, the queue directory and the journal (path and stamp pattern) are those of it; a history that ends in an error stopped at the first failing step with the configuration unchanged. Tie: the real load_config with liblua 5.3 "
             "on ~850 generated files; handler histories with the configuration rewritten at every position (valid / not Lua / ill-typed / journal cannot be opened) and a monitor demanding that nothing of a rejected "
             "configuration shows in later operations.",
             NOTE + "Configuration files are finite lists of assignments of literals (arbitrary Lua is out of scope). 'Nothing applied' is about the handler: a failed reload may leave an empty new queue directory on disk.",
